@@ -185,6 +185,8 @@ pub struct FieldDef {
     pub map: Option<u32>,
     /// field-level `error = SimErrB`
     pub error_b: bool,
+    /// `needs_predicate`: only adds the bound `FieldTy: Deserr<E>` to the impl
+    pub needs_predicate: bool,
 }
 
 impl FieldDef {
@@ -200,6 +202,7 @@ impl FieldDef {
             conv: Conv::No,
             map: None,
             error_b: false,
+            needs_predicate: false,
         }
     }
     /// the type actually deserialized from the payload
